@@ -184,6 +184,9 @@ class _RemotePathMapper:
             )
             if location.path in node.valid_paths.get(location.deployment, {}).get(
                 location.name, set()
+            ) and any(
+                loc.path == location.path and loc.data_type != DataType.INVALID
+                for loc in node.locations[location.deployment][location.name]
             ):
                 break
             else:
